@@ -115,6 +115,13 @@ func (s *SQLRepository) Get(name string) (<-chan *Snapshot, error) {
 
 // GetSince attempts to return a channel of snapshots for the asset with the given name since the given date.
 func (s *SQLRepository) GetSince(name string, date time.Time) (<-chan *Snapshot, error) {
+	// Reading an asset that does not exist is an error, as it is for the
+	// other repositories.
+	_, err := s.LastDate(name)
+	if err != nil {
+		return nil, err
+	}
+
 	rows, err := s.getSinceQuery.Query(name, date)
 	if err != nil {
 		return nil, fmt.Errorf("unable to get since: %w", err)
